@@ -14,12 +14,12 @@ T = {
     'pod12': 'sim::Pod<12>', 'pod5': 'sim::Pod<5>',
     'trk9': 'sim::Tracked<9>', 'trk12': 'sim::Tracked<12>', 'trk24': 'sim::Tracked<24>',
     'mo9': 'sim::TrackedMO<9>', 'mo12': 'sim::TrackedMO<12>', 'thr9': 'sim::TrackedThrow<9>', 'thr12': 'sim::TrackedThrow<12>',
-    'str': 'std::string', 'up': 'std::unique_ptr<int>', 'pr': 'std::pair<std::uint32_t, std::uint32_t>', 'sp12': 'sim::SelfPtr<12>', 'sp13': 'sim::SelfPtr<13>',
+    'str': 'std::string', 'up': 'std::unique_ptr<int>', 'pr': 'std::pair<std::uint32_t, std::uint32_t>', 'sp12': 'sim::SelfPtr<12>', 'sp13': 'sim::SelfPtr<13>', 'cc12': 'sim::CopyCounted<12>', 'cc5': 'sim::CopyCounted<5>',
 }
 SIZEOF = {'u8': 1, 'u16': 2, 'u32': 4, 'u64': 8, 'i32': 4, 'ch': 1, 'by': 1, 'f32': 4, 'f64': 8, 'ptr': 8, 'sz': 8,
-          'pod12': 12, 'pod5': 5, 'trk9': 9, 'trk12': 12, 'trk24': 24, 'mo9': 9, 'mo12': 12, 'thr9': 9, 'thr12': 12, 'str': 32, 'up': 8, 'pr': 8, 'sp12': 12, 'sp13': 13}
+          'pod12': 12, 'pod5': 5, 'trk9': 9, 'trk12': 12, 'trk24': 24, 'mo9': 9, 'mo12': 12, 'thr9': 9, 'thr12': 12, 'str': 32, 'up': 8, 'pr': 8, 'sp12': 12, 'sp13': 13, 'cc12': 12, 'cc5': 5}
 INTEGRAL = {'u8', 'u16', 'u32', 'u64', 'sz'}
-NONTRIVIAL = {'trk9', 'trk12', 'trk24', 'mo9', 'mo12', 'thr9', 'thr12', 'str', 'up', 'sp12', 'sp13'}
+NONTRIVIAL = {'trk9', 'trk12', 'trk24', 'mo9', 'mo12', 'thr9', 'thr12', 'str', 'up', 'sp12', 'sp13', 'cc12', 'cc5'}
 TRACKED = {'trk9', 'trk12', 'trk24', 'mo9', 'mo12', 'thr9', 'thr12'}
 MOVEONLY = {'mo9', 'mo12', 'up'}
 REAL = {'str', 'up'}
@@ -163,6 +163,10 @@ def curated():
     a(make('sp_fx', [P('f', 'sp12'), P('p', 'u16'), P('p', 'sp13')], 'none'))
     a(make('sp_var', [P('p', 'u32'), P('v', 'sp12', 8), P('p', 'sp13')], 'alld'))
     a(make('sp_mix', [P('f', 'sp13'), P('p', 'u8'), P('v', 'sp12'), P('p', 'u32', 4)], 'ae'))
+    # trivially move constructible + trivially destructible, but copies must run the (counted) copy constructor
+    a(make('cc_fx', [P('p', 'u32'), P('f', 'cc12')], 'none'))
+    a(make('cc_var', [P('p', 'u32'), P('v', 'cc12'), P('p', 'cc5')], 'all'))
+    a(make('cc_only', [P('f', 'cc5', 4)], 'ae'))
     a(make('pr_fx_trk', [P('f', 'pr'), P('p', 'trk9')], 'none'))
     a(make('pr_str', [P('p', 'pr'), P('f', 'str')], 'ae'))
     a(make('pr_var_trk', [P('p', 'u32'), P('v', 'pr'), P('p', 'trk12'), P('p', 'pr')], 'noned'))
